@@ -104,6 +104,11 @@ CLAIMED = {
          'comparisons; header cache growth is capped and every cache write follows a capacity test; caller-supplied codec geometry is checked before it divides. '
          'Absence of all memory errors for all inputs (heap destinations without visible capacity) and the time bound as such are not decided.',
          'bounded-sink proof by demand-driven interval + symbolic bound analysis; loop-exit idiom analysis; dominance rules'),
+ 'C15': ('DESIGN.md §4 C15',
+         'psf_fread / psf_fwrite retry only EINTR, stop on zero transfers and latched errors, account exactly the transferred bytes and return total / bytes; every staging loop counts what was '
+         'transferred and leaves on a short transfer; no reading loop can spin without read progress; failed opens and close hooks release everything on every path (no release skippable). '
+         'Values under inconsistent tell/length answers, time bounds and non-corruption of earlier data are not decided.',
+         'required-fact extraction on the I/O primitives + shared loop / ownership path rules (C03, C05, C16)'),
 }
 REASONS = {}
 DEFAULT_REASON = 'check not built yet (work in progress); see DESIGN.md'
